@@ -203,7 +203,7 @@ def gen_calc(rng, V, tbl="public", which=None, pool=None):
         return ev + ([opts] if opts else [])
     if which == "xsld":
         ev = ["calc", tbl, which, V.formula(rng, xray_ok=True, pool=pool), rng.choice([1.0, 5.24]),
-              rng.choice([8.04, 17.44, 1.0])]
+              rng.choice([8.04, 17.44, 1.0, [8.04, 17.44], [1.0, 8.04, 30.0]])]
         opts = {k: True for k in ("wavelength", "natural", "str") if rng.random() < 0.2}
         if rng.random() < 0.05:
             ev[4] = None
@@ -235,7 +235,7 @@ def gen_calc(rng, V, tbl="public", which=None, pool=None):
         return ["calc", tbl, which, rng.choice(NSF_TABLES)]
     if which == "refraction":
         return ["calc", tbl, which, V.formula(rng, xray_ok=True, pool=pool), rng.choice([1.0, 5.24]),
-                rng.choice([8.04, 17.44])]
+                rng.choice([8.04, 17.44, [8.04, 17.44]])]
     if which == "composite":
         return ["calc", tbl, which, V.formula(rng, pool=pool), V.formula(rng, pool=pool),
                 rng.choice([4.75, [0.5, 1.0, 4.0]])]
@@ -261,9 +261,10 @@ def gen_calc(rng, V, tbl="public", which=None, pool=None):
         ions = [(26, 2), (26, 3), (28, 2), (25, 2), (27, 2), (64, 3), (29, 2), (24, 3)]
         Z, q = rng.choice(ions)
         ref = rng.choice([[Z, 0, q], [Z, 0, 0]])
-        return ["calc", tbl, which, ref, q, [0.0, 0.1, 0.2]]
+        return ["calc", tbl, which, ref, q, rng.choice([[0.0, 0.1, 0.2], 0.1, [0.3]]),
+                rng.choice(["M_Q", "M_Q", "j0_Q", "j2_Q", "j4_Q", "j6_Q", "J_Q"])]
     if which == "f0":
-        return ["calc", tbl, which, V.atom(rng, rng.choice(["el", "ion", "isoion"])), [0.0, 1.0, 5.0]]
+        return ["calc", tbl, which, V.atom(rng, rng.choice(["el", "ion", "isoion"])), rng.choice([[0.0, 1.0, 5.0], 1.0, [0.5]])]
     return ["calc", tbl, which]
 
 
